@@ -15,6 +15,7 @@ import (
 	"math"
 	"math/big"
 	"math/rand"
+	"slices"
 	"sort"
 	"strconv"
 
@@ -3116,6 +3117,17 @@ func generateRandomizedSpec(
 			if r.FlipWeightedCoin(id.Weights.KeyShare_Append_RandomGroups) {
 				ks.KeyShares = append([]KeyShare{{Group: X25519MLKEM768}}, ks.KeyShares...)
 			}
+		}
+		// Keep key_share consistent with supported_groups: the hybrid group is
+		// listed if and only if a share for it is sent (the two were decided by
+		// independent coins above; the coins are still flipped so that the
+		// random stream, and hence every other decision, is unchanged).
+		hybridListed := slices.Contains(curveIDs, X25519MLKEM768)
+		hybridShared := ks.KeyShares[0].Group == X25519MLKEM768
+		if hybridListed && !hybridShared {
+			ks.KeyShares = append([]KeyShare{{Group: X25519MLKEM768}}, ks.KeyShares...)
+		} else if !hybridListed && hybridShared {
+			ks.KeyShares = ks.KeyShares[1:]
 		}
 		pskExchangeModes := PSKKeyExchangeModesExtension{[]uint8{pskModeDHE}}
 		supportedVersionsExt := SupportedVersionsExtension{
